@@ -8,6 +8,9 @@ using sqf::runtime::runtime;
 using sqf::runtime::context;
 using sqf::runtime::instruction;
 
+static std::atomic<long long> g_seq{ 0 };
+long long next_seq() { return g_seq.fetch_add(1) + 1; }
+
 // ---------------------------------------------------------------- logger
 
 void CapLogger::log(const LogMessageBase& message)
@@ -16,6 +19,8 @@ void CapLogger::log(const LogMessageBase& message)
     e.level = (int)message.getLevel();
     e.code = (long long)message.getErrorCode();
     e.text = message.formatMessage();
+    e.t = vclock::now_ns();
+    e.seq = next_seq();
     if (e.text.size() > max_text) { e.text.resize(max_text); e.text += "...<cut>"; }
     if (auto rl = dynamic_cast<const logmessage::RuntimeLogMessageBase*>(&message))
     {
@@ -38,7 +43,8 @@ vj::value CapLogger::drain()
     {
         auto it = vj::value::arr();
         it.push(e.level).push(e.code).push(e.text);
-        if (e.has_loc) { it.push(e.line).push(e.col).push(e.path); }
+        if (e.has_loc) { it.push(e.line).push(e.col).push(e.path); } else { it.push(0).push(0).push(""); }
+        it.push(e.t).push(e.seq);
         arr.push(it);
     }
     entries.clear();
@@ -98,8 +104,24 @@ VM::~VM()
 
 // ---------------------------------------------------------------- helpers
 
+void VMMon::scan_contexts(runtime& r)
+{
+    // ids are handed out in the order of the runtime's context list, i.e. in creation order
+    for (auto it = r.context_begin(); it != r.context_end(); ++it)
+    {
+        bool known = false;
+        for (auto& w : ctx_ids)
+        {
+            auto sp = w.lock();
+            if (sp && sp.get() == it->get()) { known = true; break; }
+        }
+        if (!known) ctx_ids.push_back(*it);
+    }
+}
+
 int VMMon::ctx_id(runtime& r, context& c)
 {
+    scan_contexts(r);
     for (size_t i = 0; i < ctx_ids.size(); i++)
     {
         auto sp = ctx_ids[i].lock();
@@ -203,6 +225,9 @@ static void h_exec_enter(runtime& r, size_t& budget)
         VMMon::Slice s{};
         auto& c = r.context_active();
         s.ctx = m->ctx_id(r, c);
+        s.known0 = (int)m->ctx_ids.size();
+        s.seq0 = next_seq();
+        s.terminated = c.terminate();
         s.t0 = vclock::now_ns();
         s.budget = budget;
         s.n = 0;
@@ -223,6 +248,9 @@ static void h_exec_leave(runtime& r, int res)
         s.t1 = vclock::now_ns();
         s.n = m->instr.load() - m->cur_slice_start_instr;
         s.res = res;
+        m->scan_contexts(r);
+        s.known1 = (int)m->ctx_ids.size();
+        s.seq1 = next_seq();
         if (sp)
         {
             s.susp = sp->suspended();
@@ -260,6 +288,7 @@ static void h_after(runtime& r, context& c, const instruction& ins)
     auto m = find_mon(r);
     if (!m) return;
     m->instr.fetch_add(1);
+    if (m->tick_ns) vclock::advance_ns(m->tick_ns);
     if (m->mon_stack)
     {
         auto& sh = m->shadow;
@@ -381,7 +410,7 @@ vj::value VMMon::report(bool with_logs)
         for (auto& s : slice_log)
         {
             auto e = vj::value::arr();
-            e.push(s.ctx).push(s.t0).push(s.t1).push(s.n).push(s.res).push(s.susp).push(s.wake).push((long long)s.budget).push(s.can_suspend).push(s.empty_after);
+            e.push(s.ctx).push(s.t0).push(s.t1).push(s.n).push(s.res).push(s.susp).push(s.wake).push((long long)s.budget).push(s.can_suspend).push(s.empty_after).push(s.known0).push(s.known1).push(s.terminated).push(s.seq0).push(s.seq1);
             a.push(e);
         }
         o.set("slice_log", a);
